@@ -7,6 +7,7 @@ import (
 	"encoding/hex"
 	"encoding/pem"
 	"fmt"
+	"sort"
 	"strings"
 	"time"
 
@@ -151,7 +152,14 @@ func pgpKey(info Info, data []byte) (Info, error) {
 	}
 
 	info.Attributes = gpgPublicKeyAttributes(e.PrimaryKey)
-	for _, i := range e.Identities {
+	// Identities is a map: list the user IDs in a fixed (sorted) order
+	names := make([]string, 0, len(e.Identities))
+	for name := range e.Identities {
+		names = append(names, name)
+	}
+	sort.Strings(names)
+	for _, name := range names {
+		i := e.Identities[name]
 		attrs := gpgSignatureAttributes(i.SelfSignature, e.PrimaryKey.CreationTime)
 		for _, s := range i.Signatures {
 			attrs = append(attrs, gpgSignatureAttributes(s, e.PrimaryKey.CreationTime)...)
